@@ -201,7 +201,35 @@ def map_stream(run, n, bit_ok):
     return res
 
 
-STREAMS = {"enum": enum_stream, "new": new_stream, "rest": rest_stream, "map": map_stream}
+def fixed_stream(run, n, bit_ok):
+    """hand-written packages whose runs interact through file names: two source files where one name is a proper suffix of
+    the other, each generated for with -file= (any order), for `new` and `enum`; and one directive-only gen.go with
+    -type=*.  No skeleton is compared for them (GOpaque): the property itself is evaluated on the observation."""
+    rng = run.rng
+    res = []
+    user = "package %s\n\ntype User struct {\n\tid   int\n\tname string\n}\n"
+    admin = "package %s\n\ntype AdminUser struct {\n\tid    int\n\tlevel uint8\n}\n\ntype Audit struct {\n\twho string\n}\n"
+    for k, flags in enumerate([[], ["-getset"], ["-opt", "-json"]]):
+        name = "fx%d" % k
+        order = [("user.go", 1), ("admin_user.go", 2)]
+        if rng.random() < 0.5:
+            order.reverse()
+        runs = [(["new"] + flags + ["-file=" + f], [("opaque", "GOpaque")] * cnt) for f, cnt in order]
+        res.append(Pkg(name, {"user.go": user % name, "admin_user.go": admin % name}, runs,
+                       {"cmd-new", "file-name-suffix"}))
+    color = "package %s\n\ntype Color int\n\nconst (\n\tRed Color = iota\n\tGreen\n)\n"
+    bg = "package %s\n\ntype Shade uint8\n\nconst (\n\tDark Shade = iota + 1\n\tLight\n)\n"
+    for k, flags in enumerate([[], ["-json", "-text"]]):
+        name = "fy%d" % k
+        order = [("color.go", 1), ("bgcolor.go", 1)]
+        if rng.random() < 0.5:
+            order.reverse()
+        runs = [(["enum"] + flags + ["-file=" + f], [("opaque", "GOpaque")] * cnt) for f, cnt in order]
+        res.append(Pkg(name, {"color.go": color % name, "bgcolor.go": bg % name}, runs, {"cmd-enum", "file-name-suffix"}))
+    return res
+
+
+STREAMS = {"enum": enum_stream, "new": new_stream, "rest": rest_stream, "map": map_stream, "fixed": fixed_stream}
 
 
 # ------------------------------------------------------------------ running
